@@ -26,6 +26,10 @@ from harness.lib import oracle as O, impl as I, gen_reference as G
 PROPERTY = 'C11'
 ROOT = os.path.dirname(os.path.dirname(os.path.dirname(os.path.abspath(__file__))))
 FINDING_D9 = 'C11-D9'
+FINDING_BOOKEND = 'C11-bookend-plus'
+FINDING_COMMENT = 'C11-comment-in-block'
+FINDING_LONE = 'C11-idx-lone-gene'
+FINDING_ENSUTR = 'C11-write-ensembl-utr'
 
 # ------------------------------------------------------------------ generation
 def squeeze(rng, world, stats):
@@ -184,7 +188,7 @@ def text_variant(rng, case, stats, force=None):
     world = case['world']
     feats = force or [f for f, p in (('nonascii_name', 0.5), ('nonascii_attr', 0.4), ('nonascii_comment', 0.5),
                                      ('crlf', 0.25), ('mixed_eol', 0.1), ('comments_between', 0.5), ('long_attr', 0.3),
-                                     ('no_final_newline', 0.3), ('inside', 0.06)) if rng.random() < p]
+                                     ('no_final_newline', 0.3), ('inside', 0.06), ('ensembl_utr', 0.15)) if rng.random() < p]
     if not feats:
         feats = ['nonascii_comment']
     if 'nonascii_name' in feats and not case.get('gtf_lines'):
@@ -192,6 +196,23 @@ def text_variant(rng, case, stats, force=None):
             if rng.random() < 0.6:
                 g['name'] = g['name'] + nonascii_word(rng)
     lines = case.get('gtf_lines') or G.gtf_lines(world)
+    if 'ensembl_utr' in feats:
+        # Ensembl-style records: five_prime_utr / three_prime_utr instead of UTR (decided from the ground truth)
+        txl = tx_lookup(world)
+        new = []
+        n_utr = 0
+        for l in lines:
+            f = l.split('\t')
+            if f[2] == 'UTR':
+                gene, tx = txl[line_kind(l)[1]]
+                cfs = tx.get('cds_feature_start', tx['cds'][0])
+                five = set(G._segments(gene, tx, 0, cfs))
+                f[2] = 'five_prime_utr' if (int(f[3]) - 1, int(f[4])) in five else 'three_prime_utr'
+                n_utr += 1
+            new.append('\t'.join(f))
+        lines = new
+        if n_utr:
+            case['ensembl_utr'] = True
     out = []
     inside = set()
     def comment():
@@ -249,6 +270,59 @@ def split_keepends(text):
         out.append(parts[-1])
     return out
 
+def gen_ops(rng, world, pos):
+    """a history of READ-ONLY operations for ONE annotation object: queries, sequence accessors and
+    GtfIO.write interleaved; at least two writes with sequence / Sec / coordinate queries after the first"""
+    pairs = [(g, t) for g in world['genes'] for t in g['transcripts']]
+    if not pairs:
+        return []
+    coding = [(g, t) for g, t in pairs if t['cds']]
+    secs = [(g, t) for g, t in pairs if t.get('sec')]
+    def one():
+        g, t = rng.choice(pairs)
+        k = rng.choices(['seq', 'cdna', 'gseq', 'g2tx', 'tx2g', 'gene2tx', 'exonic_txs', 'write'],
+                        [25, 12, 8, 15, 10, 6, 6, 12])[0]
+        if k == 'seq':
+            if secs and rng.random() < 0.4:
+                g, t = rng.choice(secs)
+            return ['seq', t['id'], rng.random() < 0.3]
+        if k == 'cdna':
+            if not coding:
+                return ['seq', t['id'], False]
+            return ['cdna', rng.choice(coding)[1]['id']]
+        if k == 'gseq':
+            return ['gseq', g['id']]
+        if k == 'g2tx':
+            return ['g2tx', t['id'], rng.randrange(*pos['tx'][t['id']]['g'])]
+        if k == 'tx2g':
+            return ['tx2g', t['id'], rng.randrange(*pos['tx'][t['id']]['i'])]
+        if k == 'gene2tx':
+            return ['gene2tx', g['id'], t['id'], rng.randrange(*pos['gene'][g['id']]['i'])]
+        if k == 'exonic_txs':
+            return ['exonic_txs', g['id'], rng.randrange(*pos['gene'][g['id']]['g'])]
+        return ['write']
+    ops = [one() for _ in range(rng.randint(8, 18))]
+    ops.insert(rng.randint(0, max(0, len(ops) // 3)), ['write'])
+    for g, t in rng.sample(pairs, min(2, len(pairs))) + (rng.sample(secs, 1) if secs else []) :
+        ops.append(['seq', t['id'], False])
+    if coding:
+        ops.append(['cdna', rng.choice(coding)[1]['id']])
+    ops.append(['write'])
+    ops.append(one())
+    return ops
+
+def add_lone_gene(rng, world, stats=None):
+    """a gene record without any transcript (last gene of the file)"""
+    cname = sorted(world['chroms'])[-1]
+    L = len(world['chroms'][cname])
+    n = rng.randint(8, 30)
+    st = rng.randint(0, max(0, L - n - 1))
+    k = len(world['genes']) + 900
+    world['genes'].append({'id': 'ENSG%011d.1' % k, 'name': 'LONE%d' % k, 'chrom': cname, 'strand': rng.choice([1, -1]),
+                           'biotype': 'lncRNA', 'start': st, 'end': st + n, 'transcripts': [], 'lone': True})
+    if stats is not None:
+        stats['lone_gene'] = stats.get('lone_gene', 0) + 1
+
 def make_case(rng, stats, kind=None, limit=10):
     kind = kind or rng.choices(['small', 'many', 'normal'], [0.62, 0.28, 0.10])[0]
     wr = random.Random(rng.getrandbits(64))
@@ -259,6 +333,8 @@ def make_case(rng, stats, kind=None, limit=10):
     else:
         world = G.gen_world(wr, sec_p=0.4)
     squeeze(wr, world, stats)
+    if rng.random() < 0.06:
+        add_lone_gene(wr, world, stats)
     gkeys = [g['id'] for g in world['genes']]
     tkeys = [t['id'] for g in world['genes'] for t in g['transcripts']]
     n = rng.choice([40, 80, 200]) if kind == 'many' else rng.choice([20, 40])
@@ -268,8 +344,9 @@ def make_case(rng, stats, kind=None, limit=10):
     case = {'kind': 'world', 'wkind': kind, 'world': world, 'pos': positions(world), 'hist': hist,
             'check_coding': rng.random() < 0.6}
     # a (gene, transcript of another gene) pair for the membership check of gene -> transcript
-    if len(world['genes']) >= 2 and rng.random() < 0.5:
-        g1, g2 = rng.sample(world['genes'], 2)
+    withtx = [g for g in world['genes'] if g['transcripts']]
+    if len(withtx) >= 2 and rng.random() < 0.5:
+        g1, g2 = rng.sample(withtx, 2)
         case['nonmember'] = [g1['id'], g2['transcripts'][0]['id']]
     if rng.random() < 0.12:
         malform(wr, case, stats)
@@ -279,6 +356,7 @@ def make_case(rng, stats, kind=None, limit=10):
     allk = [['g', k] for k in gkeys] + [['t', k] for k in tkeys]
     case['hist']['all'] = allk
     case['hist']['idx_all'] = list(reversed(allk))
+    case['ops'] = gen_ops(wr, world, case['pos'])
     return case
 
 # ------------------------------------------------------------------ model side
@@ -351,6 +429,9 @@ def model_requests(case):
             secs = [[a, b, g['strand']] for a, b, _ in sec_features(g0, t)]
             reqs.append(('c11_txseq', [g['strand'], t['exons'], cds, utr_features(g0, t), secs, world['chroms'][g['chrom']]]))
             tags.append(('txseq', t['id'], None))
+            if t['cds']:
+                reqs.append(('c11_cdna', [g['strand'], t['exons'], cds, world['chroms'][g['chrom']]]))
+                tags.append(('cdna', t['id'], None))
     if case.get('nonmember'):
         gid, tid = case['nonmember']
         g = [x for x in world['genes'] if x['id'] == gid][0]
@@ -463,7 +544,7 @@ def check_statement_tx(gene, tx, conv, pr):
             elif not r.startswith('E:ValueError'):
                 bad.append(('non-exonic genomic position %d raised %s' % (g, r), g))
         elif r != t:
-            bad.append(('exonic genomic position %d -> %r, expected transcript index %d' % (g, r, t), g))
+            bad.append(('exonic genomic position %d -> %r, expected transcript index %d' % (g, r, t), {'g': g, 'r': r}))
         ex = conv['exonic'][k]
         if ex != (t is not None):
             bad.append(('is_exonic(%d) = %r' % (g, ex), g))
@@ -476,7 +557,7 @@ def check_statement_tx(gene, tx, conv, pr):
             else:
                 back = conv['g2tx'][t - glo]
                 if back != i:
-                    bad.append(('tx->genomic->tx: %d -> %d -> %r' % (i, t, back), i))
+                    bad.append(('tx->genomic->tx: %d -> %d -> %r' % (i, t, back), {'g': t, 'r': back}))
         elif i > n and not is_err(r):
             bad.append(('transcript index %d beyond the transcript (length %d) mapped to %r' % (i, n, r), i))
     if conv['len'] != n:
@@ -511,7 +592,7 @@ def check_statement_gene(gene, conv, pr, txconvs):
                 if not is_err(r):
                     bad.append(('gene index %d (genomic %d, not exonic in %s) mapped to %r' % (i, g, tx['id'], r), i))
             elif r != t:
-                bad.append(('gene index %d -> transcript %r of %s, expected %d' % (i, r, tx['id'], t), i))
+                bad.append(('gene index %d -> transcript %r of %s, expected %d' % (i, r, tx['id'], t), {'g': g, 'r': r, 'tx': tx}))
     return bad
 
 def expected_seq(world, gene, tx):
@@ -529,7 +610,7 @@ def expected_seq(world, gene, tx):
         sec.append([min(a, b), max(a, b) + 1])
     return {'seq': s, 'orf': orf, 'sec': sorted(sec)}
 
-def expected_dump_checks(world, dump, skip_ids=()):
+def expected_dump_checks(world, dump, skip_ids=(), ensembl_utr=False):
     """fully parsed models vs the generator's description of the annotation"""
     bad = []
     if sorted(dump['g']) != sorted(g['id'] for g in world['genes']):
@@ -561,7 +642,7 @@ def expected_dump_checks(world, dump, skip_ids=()):
             got = {'exon': [[x['start'], x['end']] for x in t['exon']],
                    'cds': [[x['start'], x['end']] for x in t['cds']],
                    'frames': [x['frame'] for x in t['cds']],
-                   'utr': sorted([x['start'], x['end']] for x in t['utr']),
+                   'utr': sorted([x['start'], x['end']] for x in (t['utr'] if not ensembl_utr else t['five_utr'] + t['three_utr'])),
                    'sec': sorted([x['start'], x['end']] for x in t['selenocysteine']),
                    'strand': t['transcript']['strand'], 'chrom': t['transcript']['chrom'], 'gene_id': t['gene_id'],
                    'tid': t['transcript_id'], 'protein_id': t['protein_id'],
@@ -570,6 +651,8 @@ def expected_dump_checks(world, dump, skip_ids=()):
                    'nf': [t['cds_start_nf'], t['mrna_end_nf']]}
             if any(x['strand'] != gene['strand'] or x['chrom'] != gene['chrom'] for k in ('exon', 'cds', 'utr', 'selenocysteine') for x in t[k]):
                 bad.append('transcript %s: a sub-record has a different strand/chrom' % tx['id'])
+            if ensembl_utr and t['utr']:
+                bad.append('transcript %s: UTR records although the file has only five_/three_prime_utr records' % tx['id'])
             if sorted([x['start'], x['end']] for x in t['five_utr'] + t['three_utr']) != got['utr']:
                 bad.append('transcript %s: five_utr + three_utr is not a split of utr' % tx['id'])
             if exp != got:
@@ -601,25 +684,42 @@ def compare_world(case, out, model, cmodel, stats):
     conv = out['conv']
     # ---- 1. declarative statement on the implementation's conversions
     stmt_bad = []
+    bookend_hits = []
     unstr = case.get('unstranded')
     def off_statement(gene, tx=None):
-        # entities outside the statement's premises: only model == implementation is compared
-        return gene['id'] == unstr or (tx is not None and bool(tx.get('abut')))
+        # entities outside the statement's premises (strand '?'): only model == implementation is compared
+        return gene['id'] == unstr
     for gene in world['genes']:
         if off_statement(gene):
             stats['off_statement'] = stats.get('off_statement', 0) + 1
             continue
-        txconvs = [(t, conv['tx'][t['id']]) for t in gene['transcripts'] if not off_statement(gene, t)]
+        txconvs = [(t, conv['tx'][t['id']]) for t in gene['transcripts']]
+        def bookend(tx, p):
+            # signature of finding C11-bookend-plus: plus strand, the position is the shared boundary of two
+            # book-ended exons (exonic: first base of the second exon) and the code raised the intron error
+            if not (isinstance(p, dict) and tx is not None and tx.get('abut') and gene['strand'] == 1):
+                return False
+            ex = tx['exons']
+            return p['r'] == 'E:ValueError:intron' and any(ex[k][1] == ex[k + 1][0] == p['g'] for k in range(len(ex) - 1))
         for what, p in check_statement_gene(gene, conv['gene'][gene['id']], case['pos']['gene'][gene['id']], txconvs):
-            stmt_bad.append('gene %s (%s strand): %s' % (gene['id'], gene['strand'], what))
+            if bookend(p.get('tx') if isinstance(p, dict) else None, p):
+                bookend_hits.append('gene %s: %s' % (gene['id'], what))
+            else:
+                stmt_bad.append('gene %s (%s strand): %s' % (gene['id'], gene['strand'], what))
         for t, tc in txconvs:
             for what, p in check_statement_tx(gene, t, tc, case['pos']['tx'][t['id']]):
-                stmt_bad.append('transcript %s (strand %d, exons %s): %s' % (t['id'], gene['strand'], t['exons'], what))
+                if bookend(t, p):
+                    bookend_hits.append('transcript %s (strand %d, exons %s): %s' % (t['id'], gene['strand'], t['exons'], what))
+                else:
+                    stmt_bad.append('transcript %s (strand %d, exons %s): %s' % (t['id'], gene['strand'], t['exons'], what))
     if case.get('nonmember'):
         if any(not is_err(r) for r in conv['nonmember']):
             stmt_bad.append('gene -> transcript accepted a transcript of another gene %r' % (case['nonmember'],))
     for s in stmt_bad[:3]:
         viol('coordinates: ' + s)
+    if bookend_hits:
+        stats['bookend_hits'] = stats.get('bookend_hits', 0) + len(bookend_hits)
+        viol('coordinates (book-ended exons, plus strand): ' + bookend_hits[0], finding=FINDING_BOOKEND, replay=minimal_bookend())
     # ---- 2. model vs implementation, every conversion, every position
     corr_bad = []
     for (kind, ident, fn), m in zip(*model):
@@ -645,6 +745,9 @@ def compare_world(case, out, model, cmodel, stats):
             exp = O.U(m[1]) if m[0] == 0 else ERRCLS[m[0]]
             gene = [g for g in world['genes'] if g['id'] == ident][0]
             truth = G.gene_seq(world, gene) if not off_statement(gene) else got
+            gl = out['seqs'].get('gene_loc', {}).get(ident)
+            if not is_err(got) and gl != [[0, len(got), 0, len(got), ident]]:
+                viol('gene sequence record of %s carries locations %r' % (ident, gl))
             if got != truth:
                 viol('gene sequence of %s differs from the strand-corrected genome: %r vs %r' % (ident, got[:60], truth[:60]))
             elif got != exp:
@@ -672,10 +775,45 @@ def compare_world(case, out, model, cmodel, stats):
                     corr_bad.append('transcript sequence %s (%s): implementation != model' % (ident, src))
                 if not is_err(got) and (got['id'] != ident or not got['desc'].startswith(ident + '|' + gene['id'])):
                     viol('transcript sequence record of %s carries id %r / description %r' % (ident, got['id'], got['desc']))
+                if not is_err(got) and not loose and got.get('loc') != [[0, len(truth['seq']), 0, len(truth['seq']), ident]]:
+                    viol('transcript sequence record of %s (%s) carries locations %r, expected the whole transcript' % (ident, src, got.get('loc')))
             stats['seqs'] += 1
             if tx['cds']:
                 stats['orfs'] += 1
             stats['secs'] += len(tx.get('sec', []))
+        elif kind == 'cdna':
+            gene, tx = txl[ident]
+            loose = off_statement(gene) or case.get('noframe') == ident
+            txs = G.tx_seq(world, gene, tx)
+            cfs = tx.get('cds_feature_start', tx['cds'][0])
+            truth_seq = txs[cfs:tx['cds'][1]]               # strand-corrected genome at the CDS positions
+            n_seg = len(cds_features(gene, tx))
+            stats['cdna'] = stats.get('cdna', 0) + 1
+            if gene['strand'] == -1 and n_seg >= 2:
+                stats['cdna_minus_multi'] = stats.get('cdna_minus_multi', 0) + 1
+            exp = {'seq': O.U(m[1]), 'ref': m[2]} if m[0] == 0 else ERRCLS[m[0]]
+            for src, got in (('fully parsed', out['seqs'].get('cdna', {}).get(ident)), ('on-disk', out.get('disk_cdna', {}).get(ident))):
+                if src == 'on-disk' and ident in case.get('inside_tx', []):
+                    continue
+                if got is None:
+                    viol('no CDS sequence returned for coding transcript %s (%s)' % (ident, src))
+                    continue
+                g3 = got if is_err(got) else {'seq': got['seq'], 'ref': got['loc'][0][2] if got['loc'] else None}
+                if loose:
+                    if g3 != exp:
+                        corr_bad.append('CDS sequence %s (%s, malformed input): implementation %r != model %r' % (ident, src, str(g3)[:80], str(exp)[:80]))
+                    continue
+                if is_err(g3) or g3['seq'] != truth_seq:
+                    viol('CDS sequence (get_cdna_sequence) of %s (%s annotation, strand %d, %d CDS segments) is not the strand-corrected genome at the CDS positions: %r vs %r' % (
+                        ident, src, gene['strand'], n_seg, str(g3 if is_err(g3) else g3['seq'])[:60], truth_seq[:60]))
+                elif g3 != exp:
+                    corr_bad.append('CDS sequence %s (%s): implementation %r != model %r' % (ident, src, str(g3)[:60], str(exp)[:60]))
+                else:
+                    L = len(truth_seq)
+                    okloc = got['loc'] == [[0, L, tx['cds'][0], tx['cds'][0] + L, ident]]
+                    if not okloc or got['id'] != ident:
+                        viol('CDS sequence record of %s (%s) carries id %r / locations %r; expected query [0,%d) at reference start %d' % (
+                            ident, src, got['id'], got['loc'], L, tx['cds'][0]))
     if corr_bad and not stmt_bad and not V:
         viol('implementation differs from the proved model although the statement holds at that input: ' + corr_bad[0], no_input=True,
              replay={'kind': 'correspondence', 'name': 'corr:C11/coordinates', 'example': corr_bad[:3], 'case': case})
@@ -690,7 +828,7 @@ def compare_world(case, out, model, cmodel, stats):
         skip_ids.update(t['id'] for g in world['genes'] if g['id'] == unstr for t in g['transcripts'])
     if case.get('noframe'):
         skip_ids.add(case['noframe'])
-    for s in expected_dump_checks(world, out['dump'], skip_ids)[:3]:
+    for s in expected_dump_checks(world, out['dump'], skip_ids, bool(case.get('ensembl_utr')))[:3]:
         viol('parser: ' + s)
     if out['gene_order'] != [g['id'] for g in world['genes']]:
         viol('parser: gene order differs from the file')
@@ -698,12 +836,22 @@ def compare_world(case, out, model, cmodel, stats):
     full = {w: {k: digest(v) for k, v in out['dump'][w].items()} for w in 'gt'}
     if out['disk_keys'] != [sorted(out['dump']['g']), sorted(out['dump']['t'])]:
         viol('on-disk annotation has a different key set than the fully parsed one')
-    ci = 0
+    comment_reported = []
+    ensutr_reported = []
+    if out.get('idx_load_error'):
+        lone = [g['id'] for g in world['genes'] if not g['transcripts']]
+        if lone and out['idx_load_error'] == 'E:IndexError':
+            viol('load_index raises IndexError on the idx files written for this annotation: gene %s has no transcript, its idx line ends '
+                 'with an empty field that rstrip() removes' % lone[0], finding=FINDING_LONE, replay=minimal_lone())
+        else:
+            viol('load_index failed on the idx files written by generate_index: %s' % out['idx_load_error'])
     (creqs, ctags, cres) = cmodel
     traces = {}
     for tag, res in zip(ctags, cres):
         traces[(tag[0], tag[1], tag[2])] = (tag[3], res)
     for hname, hist in case['hist'].items():
+        if hname not in out['disk'] and out.get('idx_load_error') and hname.startswith('idx'):
+            continue
         results = out['disk'][hname]
         stats['accesses'] += len(hist)
         for which in 'gt':
@@ -724,9 +872,19 @@ def compare_world(case, out, model, cmodel, stats):
             if inside:
                 # comment lines inside a transcript block: outside the contiguity precondition; the loader
                 # diverges for those keys (measured), every other key must still be served correctly
-                div = sum(1 for k, r in sub if k in inside and r[0] != full[which].get(k))
-                stats['noncontiguous_divergence'] = stats.get('noncontiguous_divergence', 0) + div
+                div = [(i, k, r[0]) for i, (k, r) in enumerate(sub) if k in inside and r[0] != full[which].get(k)]
+                stats['noncontiguous_divergence'] = stats.get('noncontiguous_divergence', 0) + len(div)
                 stats['noncontiguous_accesses'] = stats.get('noncontiguous_accesses', 0) + sum(1 for k, r in sub if k in inside)
+                other = [x for x in div if x[2] != 'E:IndexError']
+                if other:
+                    i, k, r = other[0]
+                    viol('on-disk annotation (%s, history %s): access #%d to key %s (comment line inside its block) returned %s, the fully parsed model is %s' % (
+                        which, hname, i, k, r, full[which].get(k)))
+                elif div and not comment_reported:
+                    comment_reported.append(1)
+                    i, k, r = div[0]
+                    viol('on-disk annotation: transcript %s has a # comment line between two of its records; the fully parsed annotation skips it, '
+                         'TranscriptPointer.load parses it and raises IndexError' % k, finding=FINDING_COMMENT, replay=minimal_comment_inside())
                 w2 = [(i, k, r[0]) for i, (k, r) in enumerate(sub) if k in valid and k not in inside and r[0] != full[which][k]]
                 if w2:
                     i, k, r = w2[0]
@@ -764,6 +922,68 @@ def compare_world(case, out, model, cmodel, stats):
             if hname != 'bad' and any(step[4] != 1 for step in tr):
                 viol('model invariant flag false on a valid-key history (model bug)', no_input=True,
                      replay={'kind': 'correspondence', 'name': 'corr:C11/pointer_cache_inv', 'case': case})
+    # ---- 4b. operation histories on ONE object: read-only operations must not change the annotation
+    for hname, label in (('history', 'fully parsed'), ('disk_history', 'on-disk')):
+        h = out.get(hname)
+        if not h:
+            continue
+        stats['history_ops'] = stats.get('history_ops', 0) + h['n_ops']
+        stats['history_writes'] = stats.get('history_writes', 0) + h['writes']
+        for pr in h['problems'][:2]:
+            if hname == 'disk_history' and any(x in case.get('inside_tx', []) for x in pr['op'][1:] if isinstance(x, str)):
+                continue
+            if pr['kind'] == 'state_changed':
+                viol('%s annotation object: after read-only operation #%d %r the %s %s no longer equals the snapshot taken before the history (fields %r)' % (
+                    label, pr['step'], pr['op'], 'gene' if pr['what'][0] == 'g' else 'transcript', pr['what'][1], pr['what'][2]))
+            else:
+                viol('%s annotation object: operation #%d %r returns a different result than the same operation earlier in the history (%r)' % (
+                    label, pr['step'], pr['op'], pr['what']))
+        # the first result of every operation = the result on the pristine main object
+        for key, r in h['results'].items():
+            op = json.loads(key)
+            ref = None
+            if op[0] == 'seq':
+                ref = (out['seqs']['tx'] if hname == 'history' else out['disk_seqs']).get(op[1])
+            elif op[0] == 'cdna':
+                ref = (out['seqs'].get('cdna', {}) if hname == 'history' else out.get('disk_cdna', {})).get(op[1])
+            elif op[0] == 'gseq':
+                sq = out['seqs']['gene'][op[1]]
+                ref = sq if is_err(sq) else {'seq': sq, 'loc': out['seqs']['gene_loc'][op[1]]}
+            elif op[0] == 'g2tx':
+                ref = conv['tx'][op[1]]['g2tx'][op[2] - case['pos']['tx'][op[1]]['g'][0]]
+            elif op[0] == 'tx2g':
+                ref = conv['tx'][op[1]]['tx2g'][op[2] - case['pos']['tx'][op[1]]['i'][0]]
+            elif op[0] == 'gene2tx':
+                ref = conv['tx'][op[2]]['gene2tx'][op[3] - case['pos']['gene'][op[1]]['i'][0]]
+            elif op[0] == 'write':
+                ref = out.get('roundtrip_text_md5')
+            else:
+                continue
+            if hname == 'disk_history' and any(x in case.get('inside_tx', []) for x in op[1:] if isinstance(x, str)):
+                continue
+            if r != ref:
+                d = sorted(f for f in r if r[f] != ref.get(f)) if isinstance(r, dict) and isinstance(ref, dict) else [str(r)[:60], str(ref)[:60]]
+                viol('%s annotation object: %r inside a history gives %r, differs from the same call on a fresh object' % (label, op, d))
+                break
+        if hname == 'history':
+            rp = h.get('reparsed')
+            if isinstance(rp, str):
+                viol('re-parsing the LAST write of a history failed: %s' % rp)
+            elif rp is not None:
+                for w in 'gt':
+                    for k, v in out['dump'][w].items():
+                        if unstr and (k == unstr or k in [t['id'] for g in world['genes'] if g['id'] == unstr for t in g['transcripts']]):
+                            continue
+                        if rp[w].get(k) != v:
+                            b = rp[w].get(k)
+                            if ensutr_sig(case, w, v, b):
+                                continue                      # reported once by the round-trip section
+                            d = 'missing' if b is None else sorted(x for x in v if v[x] != b.get(x))
+                            viol('history: the %s %s parsed back from the LAST write differs from the snapshot before the history (fields %r)' % (
+                                'gene' if w == 'g' else 'transcript', k, d))
+                            break
+            if h.get('snapshot_equals_main') is False:
+                viol('a fresh fully parsed annotation differs from the first one after a history of read-only operations')
     # ---- 5. write -> parse round trip
     rt = out['roundtrip']
     if isinstance(rt, str):
@@ -776,6 +996,12 @@ def compare_world(case, out, model, cmodel, stats):
                 if rt[w].get(k) != v:
                     a, b = v, rt[w].get(k)
                     d = 'missing' if b is None else {x: (str(a[x])[:100], str(b[x])[:100]) for x in a if a[x] != b.get(x)}
+                    if ensutr_sig(case, w, a, b):
+                        if not ensutr_reported:
+                            ensutr_reported.append(1)
+                            viol('GTF write -> parse: transcript %s loses its five_prime_utr / three_prime_utr records (GtfIO.write emits only tx_model.utr)' % k,
+                                 finding=FINDING_ENSUTR, replay=minimal_ensutr())
+                        continue
                     viol('GTF write -> parse changed %s %s: %r' % ('gene' if w == 'g' else 'transcript', k, d))
                     break
         if rt['gene_order'] != out['gene_order'] or sorted(rt['tx_order']) != sorted(out['tx_order']):
@@ -783,6 +1009,71 @@ def compare_world(case, out, model, cmodel, stats):
     if out['source'] not in (None, 'GENCODE') or out['disk_source'] != 'GENCODE':
         viol('annotation source inferred as %r / %r for a GENCODE-style file' % (out['source'], out['disk_source']))
     return V
+
+def simple_world(specs, chrom_len=150, seed=7):
+    """specs: [(strand, exons)] -> one non-coding single-transcript gene each"""
+    w = {'chroms': {'chr1': G.rand_dna(random.Random(seed), chrom_len)}, 'genes': []}
+    for i, (strand, exons) in enumerate(specs, 1):
+        gid = 'ENSG%011d.1' % i; tid = 'ENST%011d.1' % i
+        w['genes'].append({'id': gid, 'name': 'E%d' % i, 'chrom': 'chr1', 'strand': strand, 'biotype': 'lncRNA',
+                           'start': exons[0][0], 'end': exons[-1][1] if exons else 0,
+                           'transcripts': [{'id': tid, 'protein_id': None, 'exons': [list(e) for e in exons], 'cds': None, 'frame': 0,
+                                            'tags': [], 'sec': [], 'utr': False, 'biotype': 'lncRNA'}]})
+    return w
+
+def simple_case(world):
+    keys = [['g', g['id']] for g in world['genes']] + [['t', t['id']] for g in world['genes'] for t in g['transcripts']]
+    return {'kind': 'world', 'wkind': 'corpus', 'world': world, 'pos': positions(world),
+            'hist': {'gen': keys, 'idx': keys[::-1]}, 'check_coding': False}
+
+def minimal_bookend():
+    w = simple_world([(1, [[10, 20], [20, 30]]), (-1, [[50, 60], [60, 70]])])
+    for g in w['genes']:
+        g['transcripts'][0]['abut'] = True
+    return {'kind': 'world', 'case': simple_case(w)}
+
+def minimal_comment_inside():
+    w = simple_world([(1, [[10, 20], [25, 30]]), (-1, [[50, 60], [65, 70]])])
+    case = simple_case(w)
+    lines = G.gtf_lines(w)
+    out = []
+    tid = w['genes'][0]['transcripts'][0]['id']
+    seen = 0
+    for l in lines:
+        if l.split('\t')[2] == 'exon' and tid in l:
+            seen += 1
+            if seen == 2:
+                out.append('# a comment between two records of one transcript')
+        out.append(l)
+    case['gtf_text'] = '\n'.join(out) + '\n'
+    case['text_features'] = ['inside']
+    case['inside_tx'] = [tid]
+    return {'kind': 'world', 'case': case}
+
+def ensutr_sig(case, w, a, b):
+    """signature of finding C11-write-ensembl-utr: the file has five_/three_prime_utr records, and the ONLY
+    fields of the transcript model that differ after write -> parse are five_utr / three_utr, now empty"""
+    if not (case.get('ensembl_utr') and w == 't' and isinstance(b, dict)):
+        return False
+    diff = [x for x in a if a[x] != b.get(x)]
+    return bool(diff) and set(diff) <= {'five_utr', 'three_utr'} and all(b[x] == [] for x in diff)
+
+def minimal_ensutr():
+    rng = random.Random(5)
+    for _ in range(200):
+        w = G.gen_world(rng, n_chrom=1, max_genes=1, small=True, coding_p=1.0, multi_iso_p=0.0, sec_p=0.0, nf_p=0.0)
+        t = w['genes'][0]['transcripts'][0]
+        if t['cds'] and t.get('utr') and t['cds'][1] < G.tx_len(t) and t.get('cds_feature_start', t['cds'][0]) > 0:
+            break
+    case = simple_case(w)
+    text_variant(random.Random(1), case, {}, force=['ensembl_utr'])
+    return {'kind': 'world', 'case': case}
+
+def minimal_lone():
+    w = simple_world([(1, [[10, 20], [25, 30]])])
+    w['genes'].append({'id': 'ENSG00000000900.1', 'name': 'LONE', 'chrom': 'chr1', 'strand': 1, 'biotype': 'lncRNA',
+                       'start': 60, 'end': 80, 'transcripts': [], 'lone': True})
+    return {'kind': 'world', 'case': simple_case(w)}
 
 def minimal_d9(which, case=None):
     w = tiny_world(11)
